@@ -411,10 +411,10 @@ pub fn run_phases(ctx: &Ctx, prop: &str, which: &[usize]) -> (Stats, bool, Vec<V
     let mut total = Stats::default();
     let mut complete = true;
     let mut phase_info = vec![];
-    for (pi, (flush, workers, depth)) in phases(thorough).into_iter().enumerate() {
-        if !which.contains(&pi) {
-            continue;
-        }
+    let all_phases = phases(thorough);
+    // the phases run in the order given by the caller: under a tight time budget the first ones are the ones that run
+    for &pi in which {
+        let (flush, workers, depth) = all_phases[pi];
         let (pre, hists, work) = work_list(pi, thorough);
         if ctx.out_of_time() {
             complete = false;
@@ -460,7 +460,9 @@ pub fn run_phases(ctx: &Ctx, prop: &str, which: &[usize]) -> (Stats, bool, Vec<V
 
 pub fn run(ctx: &Ctx) -> Report {
     let mut rep = Report::new("model_checking");
-    let (mut total, complete, phase_info) = run_phases(ctx, "C02", &[0, 1, 2, 3, 4, 5]);
+    // the schedule families first (they are short), then the histories: plain, eager merges, cuts, two workers
+    let p = crate::preempt_family::run_family(ctx, "C02");
+    let (mut total, complete, phase_info) = run_phases(ctx, "C02", &[0, 4, 1, 5, 2, 3]);
     let nontrivial = total.counters.get("nontrivial").copied().unwrap_or(0);
     // designated large batch (memory-budget cut inside an operation batch)
     total.eval();
@@ -472,7 +474,6 @@ pub fn run(ctx: &Ctx) -> Report {
     }
     // schedule dimension: merge thread / updater preempted by writer operations, restarts, rollbacks; overlapping
     // merges; a commit racing with the end of a merge (E-PREEMPT, shared with C04)
-    let p = crate::preempt_family::run_family(ctx, "C02");
     let complete = complete && p.complete;
     rep.set("preemption_scenarios", Value::Array(p.info));
     rep.set("schedules", p.st.counters.get("preemptions_fired").copied().unwrap_or(0));
